@@ -235,13 +235,19 @@ func init() {
 		w.writeCSVBook("", bookSpec{Name: "Book", Sheets: []sheetSpec{{Name: "TimeConf", Rows: [][]string{
 			{"ID", "At"}, {"map<uint32, Item>", "datetime"}, {"id", "at"}, {"1", mustStr(a[2])}}}}})
 		ro := runOpts{LocationName: a[0], OutFormats: []format.Format{format.Text, format.Bin, format.JSON}}
+		confDir := w.Conf
+		if len(mustStr(a[2]))%2 == 1 {
+			// the conf files go to a sub-directory of the output directory: all three formats into the same one
+			ro.ConfSubdir = "release/conf"
+			confDir = filepath.Join(w.Conf, "release", "conf")
+		}
 		if err := w.genProto(ro); err != nil {
 			return "protoerr"
 		}
 		err := w.genConf(ro)
 		var have []string
 		for _, ext := range []string{".txt", ".bin", ".json"} {
-			if _, e := os.Stat(filepath.Join(w.Conf, "TimeConf"+ext)); e == nil {
+			if _, e := os.Stat(filepath.Join(confDir, "TimeConf"+ext)); e == nil {
 				have = append(have, ext[1:])
 			}
 		}
